@@ -246,11 +246,20 @@ impl Monitor for C04 {
             ("sweep", tier.pick(30000, 3000000)),
             ("chains", tier.pick(1000000, 100000000)),
             ("ethertype", tier.pick(65_536, 65_536 * 2)),
+            ("corpus", tier.pick(400_000, 8_000_000)),
         ]
     }
 
     fn run_case(&mut self, engine: &str, idx: u64, rng: &mut Prng, rep: &mut Report) {
         match engine {
+            "corpus" => match gen::corpus::case(idx, rng) {
+                Some(case) => {
+                    rep.count("corpus_cases");
+                    self.pair(rep, &case, Family::Sliced, Family::Headers);
+                    self.pair(rep, &case, Family::LaxSliced, Family::LaxHeaders);
+                }
+                None => rep.selfcheck_fail("corpus file missing".into()),
+            },
             "clean" | "hostile" => {
                 let mut o = if engine == "clean" { GenOpts::clean() } else { GenOpts::hostile() };
                 // PacketHeaders has no SLL entry point
